@@ -39,7 +39,7 @@ ASSUMPTIONS = [
 ]
 LEVEL_TEXT = "Random exploration; every generated command is really executed by bash with only the stubs reachable."
 LEVEL_NOTE = "bash, the stub scripts, the reference curl argv model"
-QUICK_N = 6_000
+QUICK_N = 2_400
 THOROUGH_N = 400_000
 BUDGET_S = (300, 7200)
 
